@@ -71,7 +71,7 @@ Definition map_insert_Q (r : rt) (k kid v : N) (res : option N) (r' : rt) : Prop
   end.
 
 Definition loss_U (r : rt) (k kid v : N) (p : panic) (s' : st) : Prop :=
-  Inv R ES (s_rt s') /\ (p = PUser \/ p = PCapOverflow) /\
+  Inv R ES (s_rt s') /\ (p = PUser \/ (p = PCapOverflow /\ rt_abs (s_rt s') = rt_abs r)) /\
   (forall j e, rt_abs (s_rt s') !! j = Some e -> j <> k -> rt_abs r !! j = Some e).
 
 Lemma map_insert_spec k kid v s :
@@ -115,9 +115,66 @@ Proof.
     eapply wp_conseq; [apply (rt_insert_spec c (Elem k kid v) s1); [rewrite Hs1; exact HI|rewrite Hs1; exact Hfa]| |].
     + intros [] s2 (HI2 & Habs2 & _). apply wp_ret. unfold map_insert_Q. split; [exact HI2|].
       rewrite Hfa. split; [reflexivity|]. rewrite Habs2, Hs1. reflexivity.
-    + intros p s2 (HI2 & Hp & Hsub). split; [exact HI2|]. split; [exact Hp|].
+    + intros p s2 (HI2 & Hp & Hsub). split; [exact HI2|]. split; [rewrite Hs1 in Hp; exact Hp|].
       intros j x Hx Hjk. eapply lookup_weaken in Hx; [|exact Hsub]. cbn [ek] in Hx.
       rewrite lookup_insert_ne in Hx by congruence. rewrite Hs1 in Hx. exact Hx.
+Qed.
+
+
+(* ------------------------------------------------------------------ lookups and removal *)
+
+(* what a lookup returns, given what the map holds for the key *)
+Definition get_out (g : gvar) (x : option elem) : out :=
+  match g with
+  | GGet | GGetMut | GIndex => OutOV (ev <$> x)
+  | GKeyValue | GKeyValueMut => OutOKV ((fun e => (ekid e, ev e)) <$> x)
+  | GContains => OutB (bool_decide (is_Some x))
+  end.
+Definition get_writes (g : gvar) : bool := match g with GGetMut | GKeyValueMut => true | _ => false end.
+
+Lemma map_get_spec g k wv s :
+  Inv R ES (s_rt s) ->
+  wp (map_get g k wv)
+     (fun o s' =>
+        Inv R ES (s_rt s') /\
+        let x := rt_abs (s_rt s) !! k in
+        o = get_out g x /\
+        rt_abs (s_rt s') = (if get_writes g then match x with Some e => <[k := Elem k (ekid e) wv]> (rt_abs (s_rt s)) | None => rt_abs (s_rt s) end
+                            else rt_abs (s_rt s)) /\
+        (get_writes g = false -> s_rt s' = s_rt s) /\ (g = GIndex -> is_Some x))
+     (fun p s' => s_rt s' = s_rt s /\ (p = PUser \/ p = PIndexMissing /\ rt_abs (s_rt s) !! k = None /\ g = GIndex)) s.
+Proof.
+  intros HI. unfold map_get. apply wp_bind. eapply frameU_use; [apply frame_tick_hash| |].
+  2:{ intros p s1 Hs1 ->. split; [exact Hs1|left; reflexivity]. }
+  intros [] s1 Hs1. unfold rt_find. wp_steps. rewrite Hs1.
+  pose proof (rt_find_abs c (s_rt s) k HI) as Hfa. rewrite Hfa.
+  destruct (rt_find_pure (s_rt s) k) as [[im e]|] eqn:Hf; cbn [option_map snd fmap option_fmap] in *.
+  - destruct g; cbn [get_out get_writes];
+      try (apply wp_ret; split; [rewrite Hs1; exact HI|]; cbn; repeat split; rewrite ?Hs1; try reflexivity; eauto).
+    + apply wp_bind. apply (set_value_spec im k wv e); [rewrite Hs1; exact HI|rewrite Hs1; exact Hf|].
+      intros s2 HI2 Habs2 _ _. apply wp_ret. split; [exact HI2|]. cbn. repeat split; try discriminate. rewrite Habs2, Hs1. reflexivity.
+    + apply wp_bind. apply (set_value_spec im k wv e); [rewrite Hs1; exact HI|rewrite Hs1; exact Hf|].
+      intros s2 HI2 Habs2 _ _. apply wp_ret. split; [exact HI2|]. cbn. repeat split; try discriminate. rewrite Habs2, Hs1. reflexivity.
+  - destruct g; cbn [get_out get_writes];
+      try (apply wp_ret; split; [rewrite Hs1; exact HI|]; cbn; repeat split; rewrite ?Hs1; try reflexivity; try discriminate).
+    apply wp_unwind. split; [exact Hs1|]. right. auto.
+Qed.
+
+Lemma map_remove_entry_spec k s :
+  Inv R ES (s_rt s) ->
+  wp (map_remove_entry c k)
+     (fun o s' => Inv R ES (s_rt s') /\ o = rt_abs (s_rt s) !! k /\ rt_abs (s_rt s') = delete k (rt_abs (s_rt s)))
+     (fun p s' => s_rt s' = s_rt s /\ p = PUser) s.
+Proof.
+  intros HI. unfold map_remove_entry. apply wp_bind. eapply frameU_use; [apply frame_tick_hash| |].
+  2:{ intros p s1 Hs1 ->. auto. }
+  intros [] s1 Hs1. unfold rt_find. wp_steps. rewrite Hs1.
+  pose proof (rt_find_abs c (s_rt s) k HI) as Hfa. rewrite Hfa.
+  destruct (rt_find_pure (s_rt s) k) as [[im e]|] eqn:Hf; cbn [option_map snd].
+  - apply wp_bind. apply (rt_remove_spec c im k e); [rewrite Hs1; exact HI|rewrite Hs1; exact Hf|].
+    intros s2 (HI2 & Habs2 & _). apply wp_ret. rewrite Hs1 in Habs2. auto.
+  - apply wp_ret. split; [rewrite Hs1; exact HI|]. split; [reflexivity|]. rewrite Hs1.
+    symmetry. apply delete_notin. exact Hfa.
 Qed.
 
 End MapProofs.
